@@ -64,6 +64,22 @@ def _impl(tier, seed, search):
                 if ok:
                     L.check('neg-multi:class', type(r) is cls and len(r) == 2, inp, 'negation of a 2-valued object is not a 2-valued object of the same class')
                     if len(r) == 2: L.close('neg-multi', np.array(r.data), np.array([-a, -c]), 1e-15, sa, inp)
+        # multi-valued objects of every length 2..8 (6 x 6 is also a matrix form): +, - and negation stay element-wise
+        if i % 7 == 1:
+            for cls in CL:
+                for M_ in range(2, 9):
+                    xs_ = [v6() for _ in range(M_)]; ys_ = [v6() for _ in range(M_)]
+                    minp = dict(cls=cls.__name__, M=M_)
+                    def build(vs_):
+                        X_ = cls(vs_[0].copy())
+                        for v_ in vs_[1:]: X_.append(cls(v_.copy()))
+                        return X_
+                    ok, r = L.noraise('multi(M)', lambda: ((build(xs_) + build(ys_)).data, (build(xs_) - build(ys_)).data, (-build(xs_)).data), minp, f'+, -, negation on {M_}-valued {cls.__name__}', sig='multi(M):raises')
+                    if ok:
+                        sm_ = max(float(np.max(np.abs(xs_))), float(np.max(np.abs(ys_))))
+                        for nm_, got_, want_ in (('add', r[0], [x_ + y_ for x_, y_ in zip(xs_, ys_)]), ('sub', r[1], [x_ - y_ for x_, y_ in zip(xs_, ys_)]), ('neg', r[2], [-x_ for x_ in xs_])):
+                            L.check(f'multi(M):{nm_}:len', len(got_) == M_, minp, f'{nm_} of {M_}-valued objects has {len(got_)} values', sig=f'multi(M):{nm_}')
+                            if len(got_) == M_: L.close(f'multi(M):{nm_}', np.array([np.asarray(g_, float).ravel() for g_ in got_]), np.array(want_), TOL, sm_, minp, what=f'{nm_} on {M_}-valued {cls.__name__} is not element-wise', sig=f'multi(M):{nm_}')
         if i == 0:
             for c1 in CL:
                 for c2 in CL:
@@ -85,6 +101,16 @@ def _impl(tier, seed, search):
             L.close('crf', r.A, -crm.T @ frc, TOL, sv * float(np.max(np.abs(frc))), dict(v=vel, f=frc), what='force cross product is not the negative transpose of the motion cross product')
             ok2, r2 = L.noraise('crm2', lambda: SpatialVelocity(vel).cross(SpatialVelocity(m2)), dict(v=vel, m=m2), 'v x m')
             if ok2: L.close('duality', float(np.dot(r.A, m2)), -float(np.dot(frc, r2.A)), TOL, sv * float(np.max(np.abs(frc))) * float(np.max(np.abs(m2))) * 6, dict(v=vel, f=frc, m=m2), what='(v x* f).m != -f.(v x m)')
+        # operands given with integer entries (lists / integer arrays): same products
+        mi = [int(x_) for x_ in g.integers(-3, 4, size=6)]; fi = [int(x_) for x_ in g.integers(-3, 4, size=6)]
+        for form_, mk_ in (('list', lambda v_: list(v_)), ('int array', lambda v_: np.array(v_, dtype=int))):
+            ok, r = L.noraise('cross(int)', lambda: (SpatialVelocity(vel).cross(SpatialVelocity(mk_(mi))).A, SpatialVelocity(vel).cross(SpatialForce(mk_(fi))).A, (SpatialVelocity(vel) @ SpatialVelocity(mk_(mi))).A),
+                              dict(v=vel, m=mi, f=fi, form=form_), 'cross products with integer-valued operands')
+            if ok:
+                sci = sv * 3.0
+                L.close('crm(int)', r[0], crm @ np.array(mi, float), TOL, sci, dict(v=vel, m=mi, form=form_), what='motion cross product with an integer-valued operand differs from the matrix form', sig='cross(int)')
+                L.close('crf(int)', r[1], -crm.T @ np.array(fi, float), TOL, sci, dict(v=vel, f=fi, form=form_), sig='cross(int)')
+                L.close('matmul(int)', r[2], crm @ np.array(mi, float), TOL, sci, dict(v=vel, m=mi, form=form_), sig='cross(int)')
         ok, r = L.noraise('matmul', lambda: SpatialVelocity(vel) @ SpatialVelocity(m2), dict(v=vel, m=m2), 'SpatialVelocity @ SpatialVelocity')
         if ok: L.close('matmul', r.A, crm @ m2, TOL, sv * float(np.max(np.abs(m2))), dict(v=vel, m=m2))
         # inertia
@@ -104,6 +130,12 @@ def _impl(tier, seed, search):
                 if ok3:
                     L.check('inertia-add:class', type(S) is SpatialInertia, iinp, 'sum of inertias is not a SpatialInertia')
                     L.close('inertia-add', S.A, IA + np.asarray(I2.A, float), TOL, max(si, float(np.max(np.abs(I2.A)))), iinp, what='inertias of joined bodies do not add')
+            # point mass (no rotational inertia given): the parallel-axis term alone, identical to passing a zero rotational inertia
+            ok2, Ip = L.noraise('inertia(m, c)', lambda: (SpatialInertia(mass, com).A, SpatialInertia(mass, com, np.zeros((3, 3))).A), iinp, 'SpatialInertia(m, c)', sig='inertia(m,c):raises')
+            if ok2:
+                Ipm = np.block([[mass * np.eye(3), mass * Cm.T], [mass * Cm, mass * Cm @ Cm.T]]); sp_ = float(np.max(np.abs(Ipm)))
+                L.close('inertia(m, c)', np.asarray(Ip[0], float), Ipm, TOL, sp_, iinp, what='SpatialInertia(m, c) is not the parallel-axis matrix of a point mass', sig='inertia(m,c)')
+                L.close('inertia(m, c)=inertia(m, c, 0)', np.asarray(Ip[0], float), np.asarray(Ip[1], float), TOL, sp_, iinp, sig='inertia(m,c)')
             acc = v6() / 1e3
             ok2, F = L.noraise('I*a', lambda: I * SpatialAcceleration(acc), dict(iinp, a=acc), 'inertia * acceleration')
             if ok2:
